@@ -427,6 +427,40 @@ func ruleC07Shapes(p *Program, r *Run) {
 			got[k] = "one of " + prodOf[k]
 		}
 	}
+	// a dispatch through a table of productions (keyword -> parser method, possibly wrapped by an adapter): the
+	// table is read instead, provided the pipeline is extended with what the looked-up production returns
+	determined := 0
+	for k := range got {
+		if _, doc := wantOp[k]; doc {
+			determined++
+		}
+	}
+	if determined == 0 {
+		if tbl := p.productionTable(wantOp); tbl != nil {
+			appends := false
+			for _, root := range p.regionOf(pkg, te.Body) {
+				ast.Inspect(root, func(n ast.Node) bool {
+					if as, ok := n.(*ast.AssignStmt); ok && len(as.Lhs) == 1 && len(as.Rhs) == 1 {
+						if f := selField(info, as.Lhs[0]); f != nil && fldName(f) == "Operators" {
+							if call, isCall := ast.Unparen(as.Rhs[0]).(*ast.CallExpr); isCall && IsBuiltinCall(info, call, "append") {
+								appends = true
+							}
+						}
+					}
+					return true
+				})
+			}
+			if appends {
+				got, prodOf = map[string]string{}, map[string]string{}
+				syn.got = map[string]map[string]bool{}
+				for k, f := range tbl {
+					prodOf[k] = fnName(f)
+					got[k] = strings.TrimPrefix(TypeStr(f.Type().(*types.Signature).Results().At(0).Type()), "*parser.")
+					syn.got[k] = map[string]bool{fnName(f): true}
+				}
+			}
+		}
+	}
 	var kws []string
 	for k := range wantOp {
 		kws = append(kws, k)
@@ -1072,4 +1106,63 @@ func (c *sortTermClient) Return(e *Engine, st *State, ret *ast.ReturnStmt) {
 			c.bad[kw] = why
 		}
 	}
+}
+
+// productionTable: a map literal of the parser package whose keys are operator keywords and whose values name (a
+// wrapper around) the production for each: keyword -> production.
+func (p *Program) productionTable(doc map[string]string) map[string]*types.Func {
+	info := p.Info
+	var best map[string]*types.Func
+	for _, f := range p.Parser.Syntax {
+		ast.Inspect(f, func(n ast.Node) bool {
+			cl, ok := n.(*ast.CompositeLit)
+			if !ok {
+				return true
+			}
+			if _, isMap := info.TypeOf(cl).Underlying().(*types.Map); !isMap {
+				return true
+			}
+			tbl := map[string]*types.Func{}
+			hits := 0
+			for _, el := range cl.Elts {
+				kv, ok := el.(*ast.KeyValueExpr)
+				if !ok {
+					return true
+				}
+				k, isS := constString(info, kv.Key)
+				if !isS {
+					return true
+				}
+				var fn *types.Func
+				ast.Inspect(kv.Value, func(m ast.Node) bool {
+					switch v := m.(type) {
+					case *ast.SelectorExpr:
+						if sel, has := info.Selections[v]; has {
+							if f, isF := sel.Obj().(*types.Func); isF && f.Pkg() == p.Parser.Types && fn == nil {
+								fn = f
+							}
+						}
+					case *ast.Ident:
+						if f, isF := info.Uses[v].(*types.Func); isF && f.Pkg() == p.Parser.Types && fn == nil {
+							if sig := f.Type().(*types.Signature); sig.Results().Len() >= 1 && strings.HasPrefix(TypeStr(sig.Results().At(0).Type()), "*parser.") {
+								fn = f
+							}
+						}
+					}
+					return true
+				})
+				if fn != nil {
+					tbl[k] = fn
+				}
+				if _, isDoc := doc[k]; isDoc {
+					hits++
+				}
+			}
+			if hits >= 10 && (best == nil || len(tbl) > len(best)) {
+				best = tbl
+			}
+			return true
+		})
+	}
+	return best
 }
